@@ -44,37 +44,38 @@ type Witness struct {
 }
 
 type Explorer struct {
-	P       *Program
-	Harness string
-	Fn      *ssa.Function
-	Workers int
-	Unwind  int
-	StepCap int64
-	MaxPaths int
+	P                 *Program
+	Harness           string
+	Fn                *ssa.Function
+	Workers           int
+	Unwind            int
+	StepCap           int64
+	MaxPaths          int
 	PanicsAreFailures bool
-	QueryLog io.Writer
+	QueryLog          io.Writer
 
-	mu       sync.Mutex
-	cond     *sync.Cond
-	work     [][]int
-	active   int
-	fnInfos  sync.Map
-	Paths    []PathResult
-	Failures []*Failure
-	Reached  map[string]*Witness
-	ReachWanted map[string]bool
+	mu            sync.Mutex
+	cond          *sync.Cond
+	work          [][]int
+	active        int
+	fnInfos       sync.Map
+	Paths         []PathResult
+	Failures      []*Failure
+	Reached       map[string]*Witness
+	ReachWanted   map[string]bool
 	AssertsProved map[string]int
 	AssertsFailed map[string]int
-	Inconclusive []string
-	TotalSteps int64
-	FnSteps   map[string]int64
-	Models    map[string]int
-	Assumptions map[string]bool
-	StoreViol []string
-	Stopped  bool
-	Known    []KnownFinding
-	KnownHits map[string]int
-	frameCheck func(in *Interp, p *Ptr)
+	Inconclusive  []string
+	TotalSteps    int64
+	FnSteps       map[string]int64
+	Models        map[string]int
+	Assumptions   map[string]bool
+	StoreViol     []string
+	Stopped       bool
+	Known         []KnownFinding
+	KnownHits     map[string]int
+	frameCheck    func(in *Interp, p *Ptr)
+	onSync        func(in *Interp, kind, op, key string)
 }
 
 type KnownFinding struct {
